@@ -1293,7 +1293,7 @@ PROPS = {
              " After completion() of the metrics-listener participant nothing accepts on the metrics address any more"
              " A speedtest session in the middle of a 100 MB download to a client that has stopped reading: after the submission completion() must stay pending while the session's wind-down cannot finish (500 ms), and come once the client is gone; for every participant kind completion() is also awaited right after the submission and must not return while the participant's task is unfinished",
         explanation="theorems registered_before_submit_observes, waiting_participant_is_woken, no_submit_no_notification, "
-                    "completion_iff_all_finished, completion_stable, late_registration_gets_no_guard about TT/Model/Shutdown.lean",
+                    "completion_iff_all_finished, completion_stable, late_registration_gets_no_guard, completion_waits_for_unfinished about TT/Model/Shutdown.lean",
         trusted=["tokio broadcast (capacity 1, lag) and mpsc close semantics as modelled",
                  "process exit in endpoint/src/main.rs and the std Mutex held across completion().await (a registration arriving while "
                  "completion() is awaited blocks its thread) are not modelled",
